@@ -61,7 +61,7 @@ def elemKey (e : Elem) : String :=
 
 /-! default ignore rules -/
 def ignorePrivate (e : Elem) : Bool := e.group % 2 == 1
-def ignorePixel (e : Elem) : Bool := e.group == 0x7fe0 && e.elem == 0x10
+def ignorePixel (e : Elem) : Bool := e.group == 0x7fe0 && Gen.pixelDataElems.contains e.elem
 def ignoreOverlay (e : Elem) : Bool := (e.group / 256 == 0x60) && e.elem == 0x3000
 def ignoreLut (e : Elem) : Bool := e.group == 0x28 && Gen.colorLutElems.contains e.elem
 
